@@ -50,6 +50,36 @@ def _preamble_attrs(draw, d, eff_container):
     return d
 
 
+NOT_JSON = '$not-json'
+
+
+def materialize(v):
+    """Replace the {NOT_JSON: kind} markers of a generated metadata value
+    by Python values json.dumps refuses."""
+    if isinstance(v, dict):
+        if set(v) == {NOT_JSON}:
+            return {'tuple-key': {('t', 1): 1, ('t', 2): 2},
+                    'set': {1, 2},
+                    'bytes': b'raw'}[v[NOT_JSON]]
+
+        return {k: materialize(x) for k, x in v.items()}
+
+    if isinstance(v, list):
+        return [materialize(x) for x in v]
+
+    return v
+
+
+def has_not_json(v):
+    if isinstance(v, dict):
+        return NOT_JSON in v or any(has_not_json(x) for x in v.values())
+
+    if isinstance(v, list):
+        return any(has_not_json(x) for x in v)
+
+    return False
+
+
 @st.composite
 def _meta_attrs(draw, d, p_present=8):
     _maybe(d, draw, 'meta_encoding', _enc, 3)
@@ -57,6 +87,16 @@ def _meta_attrs(draw, d, p_present=8):
 
     if r < p_present:
         d['meta'] = draw(gen.json_objects(max_leaves=5, nonfinite=True))
+
+        if p_present < 10 and d['meta'] and \
+                draw(st.sampled_from(range(60))) == 59:
+            # something JSON cannot hold, somewhere inside (see
+            # materialize()): serialising must fail, not drop it
+            key = sorted(d['meta'])[0]
+            d['meta'][key] = draw(st.sampled_from([
+                {NOT_JSON: 'tuple-key'}, [{NOT_JSON: 'tuple-key'}],
+                {NOT_JSON: 'set'}, {NOT_JSON: 'bytes'},
+                {'a': 1, 'b': {NOT_JSON: 'tuple-key'}}]))
     elif r == p_present:
         d['meta'] = {}
 
@@ -147,6 +187,9 @@ def build(tree):
     def make(factory, attrs):
         attrs = {k: (gen._fresh(v) if k != 'preamble' else v)
                  for k, v in copy.deepcopy(attrs).items()}
+
+        if 'meta' in attrs:
+            attrs['meta'] = materialize(attrs['meta'])
 
         if ctor:
             return factory(**attrs)
@@ -329,6 +372,10 @@ def serialisable(program):
             return False, 'order: %s after %s' % (w.section_id(op), w.prev)
 
         w.advance(op, kw)
+
+    for op, kw in program['calls']:
+        if op == 'meta' and has_not_json(kw.get('metadata')):
+            return False, 'metadata: not JSON'
 
     try:
         spec.ref_segments(program)
